@@ -80,6 +80,17 @@ func (e *Engine) VerifyFunc(name string, opts UnitOpts) (u *Unit, err error) {
 	if pk := pkgOf(fn); pk != nil && !isInit {
 		for _, gi := range e.Specs.GlobalInvs {
 			if gi.Pkg != pk.Name() {
+				// invariants of other repo packages: evaluated in their own package
+				op := e.PkgByName(gi.Pkg)
+				if op == nil {
+					continue
+				}
+				octx := *ctx
+				octx.pkg = op
+				octx.useFrameVars = false
+				octx.env = map[string]*V{}
+				u.assume(st, octx.evalBool(gi.E))
+				u.note("package invariant " + gi.Pkg + "." + gi.Label + " (" + gi.Src + "): proved as post of " + gi.Pkg + ".init")
 				continue
 			}
 			before := len(u.immutableGlobal)
